@@ -1,8 +1,12 @@
-(* Model of the dispatcher of the scripting interface: colvarscript::run (src/colvarscript.cpp) and the
-   argument-count check that opens every command body (check_cmd_nargs, src/colvarscript.h).
-   The command table (name, n_args_min, n_args_max) is NOT written here: it is dumped from the freshly
-   built binary into Gen/GenScript.v on every run.  Definitions only. *)
-From Coq Require Import ZArith List Bool String.
+(* Model of the scripting interface: the dispatcher colvarscript::run (src/colvarscript.cpp), the
+   argument-count check that opens every command body (check_cmd_nargs, src/colvarscript.h; called by the
+   CVSCRIPT_COMM_FN wrappers of src/colvarscript_commands*.cpp), and the effect of a command on the sets of
+   objects the dispatcher looks names up in (variables, biases).
+   The command table (function name, n_args_min, n_args_max) is NOT written here: it is dumped from the
+   freshly built binary into Gen/GenScript.v on every run (cvscript_n_commands/cvscript_command_names/
+   cvscript_command_n_args_min/max); the object class of a command is the prefix of its function name
+   (colvarscript::get_cmd_prefix).   Definitions only. *)
+From Coq Require Import ZArith List Bool String Ascii.
 Import ListNotations.
 Local Open Scope string_scope.
 Local Open Scope Z_scope.
@@ -13,11 +17,13 @@ Definition e_min (e : cmd_entry) : Z := snd (fst e).
 Definition e_max (e : cmd_entry) : Z := snd e.
 
 Inductive objkind := OModule | OColvar | OBias.
+(* colvarscript::get_cmd_prefix *)
 Definition prefix_of (k : objkind) : string :=
   match k with OModule => "cv_" | OColvar => "colvar_" | OBias => "bias_" end.
 (* colvarscript::cmd_arg_shift *)
 Definition shift_of (k : objkind) : Z := match k with OModule => 2 | _ => 4 end.
 
+(* cmd_str_map lookup (get_cmd_fn) *)
 Fixpoint lookup (tbl : list cmd_entry) (name : string) : option cmd_entry :=
   match tbl with
   | [] => None
@@ -25,12 +31,12 @@ Fixpoint lookup (tbl : list cmd_entry) (name : string) : option cmd_entry :=
   end.
 
 Inductive outcome :=
-| ErrNoCommand            (* fewer than two words *)
-| ErrMissingParams        (* "colvar"/"bias" with fewer than four words *)
+| ErrNoCommand            (* fewer than two words: "No commands given" *)
+| ErrMissingParams        (* "colvar"/"bias" with fewer than four words: "Missing parameters" *)
 | ErrObjectNotFound       (* no such variable / bias, and the sub-command is not "help" *)
-| ErrSyntax               (* no command of that name *)
-| ErrTooFewArgs (e : cmd_entry)
-| ErrTooManyArgs (e : cmd_entry)
+| ErrSyntax               (* no command of that name: "Syntax error" *)
+| ErrTooFewArgs (e : cmd_entry)      (* "Insufficient number of arguments" *)
+| ErrTooManyArgs (e : cmd_entry)     (* "Too many arguments" *)
 | Run (k : objkind) (e : cmd_entry) (object_exists : bool).   (* the command body is executed *)
 
 Definition mem_str (s : string) (l : list string) : bool := existsb (String.eqb s) l.
@@ -68,12 +74,139 @@ Definition dispatch (tbl : list cmd_entry) (colvars biases : list string) (words
 
 Definition is_error (o : outcome) : bool := match o with Run _ _ _ => false | _ => true end.
 
+(* ---- object class of a table entry: the prefix of its name ---- *)
+Fixpoint strip (p s : string) : option string :=
+  match p with
+  | EmptyString => Some s
+  | String a p' => match s with
+                   | EmptyString => None
+                   | String b s' => if Ascii.eqb a b then strip p' s' else None
+                   end
+  end.
+
+Definition entry_class (e : cmd_entry) : option (objkind * string) :=
+  match strip "cv_" (e_name e) with
+  | Some r => Some (OModule, r)
+  | None => match strip "colvar_" (e_name e) with
+            | Some r => Some (OColvar, r)
+            | None => match strip "bias_" (e_name e) with
+                      | Some r => Some (OBias, r)
+                      | None => None
+                      end
+            end
+  end.
+
 (* well-formedness of a command table *)
-Definition has_prefix (p s : string) : bool := String.prefix p s.
 Definition entry_wf (e : cmd_entry) : bool :=
   (0 <=? e_min e) && (e_min e <=? e_max e) &&
-  (has_prefix "cv_" (e_name e) || has_prefix "colvar_" (e_name e) || has_prefix "bias_" (e_name e)).
+  match entry_class e with Some _ => true | None => false end.
 Fixpoint nodup_names (l : list string) : bool :=
   match l with [] => true | a :: r => negb (mem_str a r) && nodup_names r end.
 Definition table_wf (tbl : list cmd_entry) : bool :=
   forallb entry_wf tbl && nodup_names (map e_name tbl).
+
+(* the two prefix pseudo-commands ("This cannot be executed from a command line") *)
+Definition is_pseudo (e : cmd_entry) : bool :=
+  String.eqb (e_name e) "cv_colvar" || String.eqb (e_name e) "cv_bias".
+
+(* a word list that runs entry e of class (k, sub) on object `name` with exactly e_min e (empty) arguments *)
+Definition witness_words (k : objkind) (sub name : string) (e : cmd_entry) : list string :=
+  match k with
+  | OModule => "cv" :: sub :: repeat "" (Z.to_nat (e_min e))
+  | OColvar => "cv" :: "colvar" :: name :: sub :: repeat "" (Z.to_nat (e_min e))
+  | OBias => "cv" :: "bias" :: name :: sub :: repeat "" (Z.to_nat (e_min e))
+  end.
+
+(* ---- the part of the module state the dispatcher depends on, and what commands do to it ---- *)
+Record mstate := mk_state {
+  st_cvs : list string;                        (* names of the variables, in creation order *)
+  st_biases : list (string * list string) }.   (* biases: name, names of the variables it uses *)
+
+Definition bias_names (st : mstate) : list string := map fst (st_biases st).
+
+Inductive decl := DCv (n : string) | DBias (n : string) (cs : list string).
+
+(* colvar::~colvar: biases that use the variable are deleted with it *)
+Definition del_cv (n : string) (st : mstate) : mstate :=
+  mk_state (filter (fun c => negb (String.eqb c n)) (st_cvs st))
+           (filter (fun b => negb (mem_str n (snd b))) (st_biases st)).
+Definition del_bias (n : string) (st : mstate) : mstate :=
+  mk_state (st_cvs st) (filter (fun b => negb (String.eqb (fst b) n)) (st_biases st)).
+
+(* one "colvar { name n ...}" / "<bias> { name n  colvars cs ...}" block: refused when the name is taken or
+   a variable is missing (colvar::init, colvarbias::init + colvarmodule::check_new_bias) *)
+Definition add_decl (st : mstate) (d : decl) : option mstate :=
+  match d with
+  | DCv n => if mem_str n (st_cvs st) then None else Some (mk_state (st_cvs st ++ [n]) (st_biases st))
+  | DBias n cs => if mem_str n (bias_names st) then None
+                  else if forallb (fun c => mem_str c (st_cvs st)) cs
+                       then Some (mk_state (st_cvs st) (st_biases st ++ [(n, cs)]))
+                       else None
+  end.
+(* colvarmodule::parse_config: blocks in order, stop at the first that fails; what was added stays *)
+Fixpoint add_decls (st : mstate) (ds : list decl) : mstate * bool :=
+  match ds with
+  | [] => (st, true)
+  | d :: r => match add_decl st d with
+              | None => (st, false)
+              | Some st' => add_decls st' r
+              end
+  end.
+
+(* result class of a body: ok / error / not modelled *)
+Inductive bclass := BOk | BErr | BUnknown.
+
+Section Exec.
+  Variable tbl : list cmd_entry.
+  (* the configuration parser is outside this property: a configuration string is represented by the list of
+     named blocks it defines (None: not parseable) *)
+  Variable parse_conf : string -> option (list decl).
+  (* the file system: contents of a configuration file (None: cannot be read) *)
+  Variable read_file : string -> option string.
+
+  Definition apply_conf (st : mstate) (text : string) : mstate * bclass :=
+    match parse_conf text with
+    | None => (st, BErr)
+    | Some ds => let (st', ok) := add_decls st ds in (st', if ok then BOk else BErr)
+    end.
+
+  (* bodies that change the sets of objects; every other body leaves them alone *)
+  Definition body (e : cmd_entry) (words : list string) (st : mstate) : mstate * bclass :=
+    let n := e_name e in
+    if String.eqb n "colvar_delete" then (del_cv (nth 2 words "") st, BOk)
+    else if String.eqb n "bias_delete" then (del_bias (nth 2 words "") st, BOk)
+    else if String.eqb n "cv_reset" then (mk_state [] [], BOk)
+    else if String.eqb n "cv_config" then apply_conf st (nth 2 words "")
+    else if String.eqb n "cv_configfile" then
+      match read_file (nth 2 words "") with
+      | None => (st, BErr)
+      | Some text => apply_conf st text
+      end
+    else (st, BUnknown).
+
+  (* one script call *)
+  Definition exec (st : mstate) (words : list string) : mstate * outcome * bclass :=
+    let o := dispatch tbl (st_cvs st) (bias_names st) words in
+    match o with
+    | Run k e ex => let (st', c) := body e words st in (st', o, c)
+    | _ => (st, o, BErr)
+    end.
+
+  Inductive event :=
+  | ECmd (words : list string)       (* script call *)
+  | EStep                            (* one simulation step *)
+  | EConfig (text : string).         (* configuration given on the engine side (colvarmodule::read_config_string) *)
+
+  Definition do_event (st : mstate) (ev : event) : mstate :=
+    match ev with
+    | ECmd w => fst (fst (exec st w))
+    | EStep => st
+    | EConfig t => fst (apply_conf st t)
+    end.
+  Definition run_events (st : mstate) (evs : list event) : mstate := fold_left do_event evs st.
+End Exec.
+
+(* consistency of the object sets: names unique, every bias refers to existing variables *)
+Definition state_wf (st : mstate) : bool :=
+  nodup_names (st_cvs st) && nodup_names (bias_names st) &&
+  forallb (fun b => forallb (fun c => mem_str c (st_cvs st)) (snd b)) (st_biases st).
